@@ -14,39 +14,10 @@ Definition fs0 : fstate := mkFS 0 0 0 0 0 false [].
 (* Reset(arg): quantile keeps its argument *)
 Definition fs_reset (arg : float) : fstate := mkFS arg 0 0 0 0 false [].
 
-(* sort.Float64s: NaN sorts first *)
-Definition fless (x y : float) : bool := PrimFloat.ltb x y || (PrimFloat.is_nan x && negb (PrimFloat.is_nan y)).
-Fixpoint finsert (x : float) (l : list float) : list float :=
-  match l with
-  | [] => [x]
-  | y :: r => if fless y x then y :: finsert x r else x :: l
-  end.
-Definition fsort (l : list float) : list float := fold_right finsert [] l.
-
-(* the largest i < n with i <= x, as a float and as an index (x >= 0) *)
-Fixpoint ffloor_upto (n : nat) (x : float) : nat :=
-  match n with
-  | O => O
-  | S k => if PrimFloat.leb (z2f (Z.of_nat n)) x then n else ffloor_upto k x
-  end.
-
-(* quantile(q, points) of scalar_table.go *)
-Definition fquantile (q : float) (points : list float) : float :=
-  match points with
-  | [] => nan
-  | _ =>
-      if PrimFloat.is_nan q then nan
-      else if PrimFloat.ltb q 0 then neg_infinity
-      else if PrimFloat.ltb 1 q then infinity
-      else
-        let sorted := fsort points in
-        let n := length points in
-        let rank := q * (z2f (Z.of_nat n) - 1) in
-        let lo := ffloor_upto n rank in
-        let hi := Nat.min (n - 1) (lo + 1) in
-        let weight := rank - z2f (Z.of_nat lo) in
-        nth lo sorted nan * (1 - weight) + nth hi sorted nan * weight
-  end.
+(* quantile(q, points) of scalar_table.go: the generic kernel of RangeArith.v (sort.Float64s with NaN
+   first, the floor of the rank, the interpolation) on floats *)
+Definition fsort (l : list float) : list float := gsort float fops l.
+Definition fquantile (q : float) (points : list float) : float := gquantile float fops infinity neg_infinity q points.
 
 (* AddFunc, by aggregation code: 0 sum 1 max 2 min 3 count 4 avg 5 group 6 stddev 7 stdvar 8 quantile *)
 Definition facc_add (code : N) (s : fstate) (v : float) : fstate :=
